@@ -23,11 +23,11 @@ func TestMain(m *testing.M) { hx.Main(m, "C06") }
 
 // Opts is the union of the option sets of the five serialisers.
 type Opts struct {
-	Indent    int  `json:"indent"`     // 0, 2, 4
+	Indent    int  `json:"indent"` // 0, 2, 4
 	Tabs      bool `json:"tabs"`
 	Upper     bool `json:"upper"`
-	Lower     bool `json:"lower"`      // ast.Format only
-	Width     int  `json:"width"`      // 0 or 80
+	Lower     bool `json:"lower"` // ast.Format only
+	Width     int  `json:"width"` // 0 or 80
 	Newlines  bool `json:"newlines"`
 	Semicolon bool `json:"semicolon"`
 	Compact   bool `json:"compact"`
